@@ -24,6 +24,87 @@ def vacuity(by_kind, by_outcome, extra, by_class):
     return probs
 
 
+def collection_worker(ns, items, res, opts):
+    """Histories <prefix>; roDelete; <further message> given to MosCollection in message-ID order, merged strict and
+    non-strict.  Oracle (no reference to the fold of C09): the merged document is the one obtained by adding the prefix
+    and the roDelete with `+`; it is completed; every further message is refused - strict: MosCompletedMergeError
+    propagates, non-strict: one MosMergeNonStrictWarning per further message - and changes nothing."""
+    import shutil
+    import tempfile
+    from .. import coll, explore, target
+    from .c09 import run_collection
+    prop = opts['prop']
+    base, msgs = opts['base'], opts['msgs']
+    tmp = tempfile.mkdtemp(prefix='mosmc-c07c-')
+    store = coll.FakeS3()
+    store.install(ns)
+
+    def renum(text, n):
+        return text.replace('<messageID>2000</messageID>', f'<messageID>{n}</messageID>', 1)
+    try:
+        for prefix, further in items:
+            texts = [renum(msgs[i][1], 2000 + 10 * k) for k, i in enumerate(prefix)]
+            rodel = gen_ro_delete(2500)
+            later = [renum(msgs[i][1], 2600 + 10 * k) for k, i in enumerate(further)]
+            ro, e = target.parse(ns, base)
+            ok = True
+            for t in texts + [rodel]:
+                m, e = target.parse(ns, t)
+                o = target.step_live(ns, ro, m)
+                if o.exc is not None:
+                    ok = False
+                    break
+            if not ok:
+                res.extra['collection_histories_skipped_failing_prefix'] += 1
+                continue
+            want = str(ro)
+            kinds = [msgs[i][0] for i in prefix] + ['RunningOrderEnd'] + [msgs[i][0] for i in further]
+            for strict in (True, False):
+                for ctor in ('strings', 'files') if further else ('strings',):
+                    got = run_collection(ns, ctor, base, texts + [rodel] + later, strict, tmp, store, allow_incomplete=False)
+                    res.transitions += 1
+                    res.nontrivial += 1 if further else 0
+                    res.extra['collection_histories'] += 1
+                    res.by_outcome[f'collection:{got["exc"]}'] += 1
+                    bad = None
+                    if got['exc'] is not None and str(got['exc']).startswith('CTOR'):
+                        bad = ('constructor', f'the collection was not built: {got["exc"]}')
+                    elif got['text'] != want:
+                        bad = ('content-changed-after-roDelete', 'str(mc) differs from the running order as it was when the roDelete was merged')
+                    elif strict and further and got['exc'] != 'MosCompletedMergeError':
+                        bad = ('not-refused:strict', f'strict merge ended with {got["exc"]} instead of MosCompletedMergeError')
+                    elif strict and not further and got['exc'] is not None:
+                        bad = ('raised', f'strict merge of a history that ends with the roDelete raised {got["exc"]}')
+                    elif not strict and (got['exc'] is not None or got['nonstrict'] != len(further)):
+                        bad = ('not-refused:non-strict', f'non-strict merge: exception {got["exc"]}, {got["nonstrict"]} MosMergeNonStrictWarning for {len(further)} messages after the roDelete')
+                    if bad:
+                        explore.add_simple_finding(res, prop, f'COLLECTION:{bad[0]}:strict={strict}:{kinds[-1] if further else "-"}',
+                                                   f'collection {kinds} strict={strict} via from_{ctor}: {bad[1]}', ro=base, messages=texts + [rodel] + later)
+                        break
+    finally:
+        shutil.rmtree(tmp, ignore_errors=True)
+
+
+def gen_ro_delete(n):
+    from .. import gen
+    return gen.msg_ro_delete(msg_id=n)
+
+
+def collection_items(tier):
+    from .c09 import mixed_messages
+    base, msgs = mixed_messages(1 if tier == 'quick' else 2)
+    idx = [i for i, (k, _) in enumerate(msgs) if k != 'RunningOrderEnd']
+    prefixes = [()] + [(i,) for i in idx[:: 3 if tier == 'quick' else 1]]
+    items = []
+    for p in prefixes:
+        items.append((p, ()))
+        for f in idx:
+            items.append((p, (f,)))
+        for f, g in zip(idx, idx[1:] + idx[:1]):
+            items.append((p, (f, g)))
+    return base, msgs, items
+
+
 def run(tier):
     mon = [mon_completion]
     if tier == 'quick':
@@ -40,7 +121,12 @@ def run(tier):
         ]
     parts.append({'label': 'other-envelope', 'harness': HCompletion(envelope='trailing', init_shapes=[('A', 'AB')], layouts=('before',), max_list=1),
                   'monitors': mon, 'opts': {'max_depth': 2}})
+    base, msgs, items = collection_items(tier)
+    enum_parts = [{'label': 'collection-histories', 'worker': collection_worker, 'items': items, 'opts': {'base': base, 'msgs': msgs}, 'chunk': 20}]
     return runner.graph_check(
-        'C07', tier, parts, rule=RULE, vacuity=vacuity,
-        assumptions=['collection-mode histories (strict / non-strict with the roDelete at every position) are explored by C09',
+        'C07', tier, parts, rule=RULE + ' Plus (c) collection mode: histories <prefix of 0..1 messages>; roDelete; <1..2 further messages of '
+        'every class> given to MosCollection (from_strings, from_files) in message-ID order, strict and non-strict: the merged document equals '
+        'the running order as it was when the roDelete was added with `+`, strict raises MosCompletedMergeError, non-strict emits one '
+        'MosMergeNonStrictWarning per further message.', vacuity=vacuity, enum_parts=enum_parts,
+        assumptions=['further collection-mode histories (the roDelete at every position of longer sequences) are explored by C09',
                      'the CLI "(completed)" marker is checked by C19'])
